@@ -3,6 +3,7 @@ package main
 // C18 — every input is answered promptly with output or a located error, never a crash.
 
 import (
+	"sort"
 	"encoding/json"
 	"fmt"
 	"go/token"
@@ -463,7 +464,18 @@ func c18b(c *Ctx) {
 					if !step {
 						continue
 					}
-					if ifi, ok := h.Instrs[len(h.Instrs)-1].(*ssa.If); ok {
+					// ... and the test of the counter against its bound decides whether the loop goes on:
+					// one branch of that test leaves the loop (a counter that is merely compared
+					// somewhere in the body bounds nothing)
+					leaves := func(b *ssa.BasicBlock) bool {
+						for _, sc := range b.Succs {
+							if !body[sc] {
+								return true
+							}
+						}
+						return false
+					}
+					if ifi, ok := h.Instrs[len(h.Instrs)-1].(*ssa.If); ok && leaves(h) {
 						ct := c.T(fn).Term(ifi.Cond)
 						if strings.Contains(ct, pt) && (strings.Contains(ct, " < ") || strings.Contains(ct, " <= ")) {
 							okBound = true
@@ -471,7 +483,7 @@ func c18b(c *Ctx) {
 					}
 					// counter tested inside the body (for i < n with the test on another block)
 					for b := range body {
-						if ifi, ok := b.Instrs[len(b.Instrs)-1].(*ssa.If); ok {
+						if ifi, ok := b.Instrs[len(b.Instrs)-1].(*ssa.If); ok && leaves(b) {
 							ct := c.T(fn).Term(ifi.Cond)
 							if strings.Contains(ct, pt) && strings.Contains(ct, " < ") {
 								okBound = true
@@ -548,6 +560,144 @@ func c18b(c *Ctx) {
 			}
 		}
 	}
+	// recursion: the parser is recursive descent; a chain of calls that comes back to the same
+	// function must have consumed a token on the way, or the recursion never ends (and the depth
+	// is then bounded by the number of tokens). Static call graph of package parser (closures and
+	// function values passed as arguments included); an edge f -> g "consumes" when no path from
+	// f's entry reaches the call without an advance (nextToken, a successful expectPeek, a callee
+	// that advances on every successful return). With the consuming edges removed the graph must
+	// be acyclic.
+	{
+		type edge struct {
+			from, to *ssa.Function
+			site     ssa.Instruction
+		}
+		var edges []edge
+		fns := map[*ssa.Function]bool{}
+		for _, fn := range c.W.FuncsOf("parser") {
+			if !isTestFunc(c.W, fn) && len(fn.Blocks) > 0 {
+				fns[fn] = true
+			}
+		}
+		for fn := range fns {
+			for _, ci := range callsIn(fn) {
+				var targets []*ssa.Function
+				if g := callee(ci); g != nil {
+					targets = append(targets, g)
+				} else if par, ok := ci.Common().Value.(*ssa.Parameter); ok && !ci.Common().IsInvoke() {
+					// a call through a function-valued parameter: whatever the callers pass for it
+					var resolve func(f *ssa.Function, par *ssa.Parameter, depth int)
+					resolve = func(f *ssa.Function, par *ssa.Parameter, depth int) {
+						idx := -1
+						for i, pp := range f.Params {
+							if pp == par {
+								idx = i
+							}
+						}
+						if idx < 0 || depth > 3 {
+							return
+						}
+						for _, site := range c.W.callsTo(f) {
+							av := site.Common().Args[idx]
+							if ct, ok := av.(*ssa.ChangeType); ok {
+								av = ct.X
+							}
+							switch x := av.(type) {
+							case *ssa.Function:
+								targets = append(targets, x)
+							case *ssa.MakeClosure:
+								if h, ok := x.Fn.(*ssa.Function); ok {
+									targets = append(targets, h)
+								}
+							case *ssa.Parameter:
+								resolve(site.Parent(), x, depth+1)
+							}
+						}
+					}
+					resolve(fn, par, 0)
+				}
+				for _, g := range targets {
+					g = unwrapThunk(g)
+					if fns[g] {
+						edges = append(edges, edge{fn, g, ci.(ssa.Instruction)})
+					}
+				}
+			}
+		}
+		// non-consuming edges
+		adj := map[*ssa.Function][]edge{}
+		nEdges, nCons := 0, 0
+		for _, e := range edges {
+			nEdges++
+			f := e.from
+			isAdv := func(in ssa.Instruction) bool {
+				ci, ok := in.(ssa.CallInstruction)
+				if !ok || in == e.site {
+					return false
+				}
+				g := callee(ci)
+				if g == nt || g == ep {
+					return true
+				}
+				return g != nil && c.W.InRepo(g) && c.W.PkgShort(g) == "parser" && computeAdv(g, 0)
+			}
+			if _, dry := existsPath(pathQuery{from: entry(f), avoid: isAdv, edgeOK: notErrorEdge, target: func(in ssa.Instruction) bool { return in == e.site }}); dry {
+				adj[f] = append(adj[f], e)
+			} else {
+				nCons++
+			}
+		}
+		// cycle search in the non-consuming graph
+		state := map[*ssa.Function]int{}
+		var stack []edge
+		var cyc []edge
+		var dfs func(f *ssa.Function) bool
+		dfs = func(f *ssa.Function) bool {
+			state[f] = 1
+			for _, e := range adj[f] {
+				stack = append(stack, e)
+				if state[e.to] == 1 {
+					// cut the stack at the first edge leaving e.to
+					for i := range stack {
+						if stack[i].from == e.to {
+							cyc = append([]edge{}, stack[i:]...)
+							break
+						}
+					}
+					return true
+				}
+				if state[e.to] == 0 && dfs(e.to) {
+					return true
+				}
+				stack = stack[:len(stack)-1]
+			}
+			state[f] = 2
+			return false
+		}
+		var order []*ssa.Function
+		for f := range fns {
+			order = append(order, f)
+		}
+		sort.Slice(order, func(i, j int) bool { return fullName(order[i]) < fullName(order[j]) })
+		found := false
+		for _, f := range order {
+			if state[f] == 0 && dfs(f) {
+				found = true
+				break
+			}
+		}
+		why := ""
+		pos := "-"
+		if found {
+			var parts []string
+			for _, e := range cyc {
+				parts = append(parts, e.from.Name()+" -> "+e.to.Name()+" ("+c.W.Pos(e.site.Pos())+")")
+			}
+			why = "the parser can call itself again without having consumed a token: " + strings.Join(parts, ", ") + " — unbounded recursion (stack overflow) on some input"
+			pos = c.W.Pos(cyc[0].site.Pos())
+		}
+		c.Check(!found, "recursion/consumes-a-token", pos, fmt.Sprintf("every recursive cycle of the parser consumes a token (%d call edges inside package parser, %d of them only after an advance)", nEdges, nCons), why)
+	}
 	c.Check(nTok >= 20 && nLex >= 8, "loop-census", "-", fmt.Sprintf("%d parser token loops, %d lexer loops, %d data loops", nTok, nLex, nData), fmt.Sprintf("found %d parser token loops and %d lexer loops, expected at least 20 and 8", nTok, nLex))
 	// nextToken shape and EOF stability
 	if sh := c.T(nt).shiftShapeOf(nt); sh == nil || len(sh.copies) != 4 {
@@ -613,6 +763,7 @@ func firstPos(b *ssa.BasicBlock) token.Pos {
 
 type exemption struct {
 	Rule, Function, Operand, Match, Reason string
+	Requires                               string
 	used                                   int
 }
 
@@ -760,6 +911,22 @@ func c18c(c *Ctx) {
 				return
 			}
 			if e := exempt(fk, operand); e != nil {
+				// an exemption that relies on a comparison in the code says so ("requires":
+				// "upper-bound") and is void when that comparison is no longer there
+				if e.Requires == "upper-bound" {
+					found := false
+					for _, l := range must {
+						if strings.HasPrefix(l, "-(builtin:len(") && strings.Contains(l, ")-1 < ") || strings.HasPrefix(l, "+(") && strings.Contains(l, " < builtin:len(") {
+							if idx != nil && strings.Contains(l, c.term(fn, idx)) && x != nil && strings.Contains(l, c.term(fn, x)) {
+								found = true
+							}
+						}
+					}
+					if !found {
+						c.Bad(key, pos, pretty(operand)+": the reviewed exemption relies on a dominating upper-bound comparison of this index against len-1, which is not there (guards here: "+fmt.Sprint(prettyAll(must))+")")
+						return
+					}
+				}
 				nExempt++
 				c.OK(key, pos, pretty(operand)+": exempted — "+e.Reason)
 				return
@@ -1114,159 +1281,7 @@ func c18e(c *Ctx) {
 		ok = f != nil && f["LineNumberStart"] == "$0.LineNumber" && f["LineNumberEnd"] == "$0.EndLineNumber" && f["CharStart"] == "$0.StartCharIndex" && f["CharEnd"] == "$0.EndCharIndex"
 		c.Check(ok, "NewParseError/fields", c.W.FuncPos(np), "error range = the token's own range", "NewParseError does not copy the token's own start and end")
 	}
-	// every error the parser returns is a located one: built by one of the two constructors, or
-	// handed up unchanged from a parser function for which the same holds (an error of strconv,
-	// fmt or errors returned as it is carries no line range at all)
-	{
-		var isParserFn func(g *ssa.Function) bool
-		isParserFn = func(g *ssa.Function) bool {
-			if g == nil || !c.W.InRepo(g) || c.W.PkgShort(g) != "parser" {
-				return false
-			}
-			if g.Parent() != nil {
-				return isParserFn(g.Parent())
-			}
-			if r := g.Signature.Recv(); r != nil && typeIs(r.Type(), "parser", "Parser") {
-				return true
-			}
-			ps := g.Signature.Params()
-			for i := 0; i < ps.Len(); i++ {
-				if typeIs(ps.At(i).Type(), "parser", "Parser") {
-					return true
-				}
-			}
-			return false
-		}
-		nRet := 0
-		for _, fn := range c.W.FuncsOf("parser") {
-			if isTestFunc(c.W, fn) || !isParserFn(fn) {
-				continue
-			}
-			res := fn.Signature.Results()
-			if res.Len() == 0 || !isErrorType(res.At(res.Len()-1).Type()) {
-				continue
-			}
-			fk := c.W.FuncKey(fn)
-			var located func(v ssa.Value, depth int) string
-			located = func(v ssa.Value, depth int) string {
-				if depth > 8 {
-					return "too deep"
-				}
-				switch x := v.(type) {
-				case *ssa.Const:
-					if x.IsNil() {
-						return ""
-					}
-				case *ssa.Phi:
-					for _, e := range x.Edges {
-						if e == v {
-							continue
-						}
-						if w := located(e, depth+1); w != "" {
-							return w
-						}
-					}
-					return ""
-				case *ssa.MakeInterface:
-					if typeIs(x.X.Type(), "parser", "ParseError") {
-						return ""
-					}
-					return "a " + x.X.Type().String()
-				case *ssa.Call:
-					g := callee(x)
-					if g == nr || g == np || isParserFn(g) {
-						return ""
-					}
-					if g != nil && c.W.InRepo(g) && isErrorCtorFn(g, 0) {
-						return ""
-					}
-					return "the error of " + calleeName(x)
-				case *ssa.Extract:
-					if cl, ok := x.Tuple.(*ssa.Call); ok {
-						g := callee(cl)
-						if isParserFn(g) {
-							return ""
-						}
-						// a parse function handed in as an argument: every function passed for it is a parser function
-						if par, ok := cl.Call.Value.(*ssa.Parameter); ok && g == nil {
-							idx := -1
-							for i, pp := range fn.Params {
-								if pp == par {
-									idx = i
-								}
-							}
-							var resolve func(f *ssa.Function, idx, depth int) bool
-							resolve = func(f *ssa.Function, idx, depth int) bool {
-								sites := c.W.callsTo(f)
-								if idx < 0 || len(sites) == 0 || depth > 3 {
-									return false
-								}
-								for _, site := range sites {
-									av := site.Common().Args[idx]
-									for {
-										ct, ok := av.(*ssa.ChangeType)
-										if !ok {
-											break
-										}
-										av = ct.X
-									}
-									switch a := av.(type) {
-									case *ssa.Function:
-										if !isParserFn(a) {
-											return false
-										}
-									case *ssa.MakeClosure:
-										h, _ := a.Fn.(*ssa.Function)
-										if !isParserFn(h) {
-											return false
-										}
-									case *ssa.Parameter:
-										j := -1
-										for i, pp := range site.Parent().Params {
-											if pp == a {
-												j = i
-											}
-										}
-										if !resolve(site.Parent(), j, depth+1) {
-											return false
-										}
-									default:
-										return false
-									}
-								}
-								return true
-							}
-							allParser := resolve(fn, idx, 0)
-							if allParser {
-								return ""
-							}
-							return "the error of a function value that is not always a parser function"
-						}
-						return "the error of " + calleeName(cl)
-					}
-				case *ssa.UnOp:
-					if a, ok := x.X.(*ssa.Alloc); ok {
-						for _, alt := range c.reachingStores(fn, a, x) {
-							if alt.val != nil {
-								if w := located(alt.val, depth+1); w != "" {
-									return w
-								}
-							}
-						}
-						return ""
-					}
-				}
-				return pretty(c.term(fn, v))
-			}
-			for i, r := range returnsOf(fn) {
-				ev := r.Results[len(r.Results)-1]
-				nRet++
-				why := located(ev, 0)
-				c.Check(why == "", fmt.Sprintf("%s/located-error#%d", fk, i), c.W.Pos(r.Pos()), "the error returned is nil, a ParseError, or handed up from a parser function", fn.Name()+" returns "+why+" as its error: it carries no line range (the property promises every error names where in the input it is)")
-			}
-		}
-		c.Check(nRet >= 100, "located-errors/scanned", "-", fmt.Sprintf("%d error returns of parser functions examined", nRet), fmt.Sprintf("expected at least 100 error returns in parser functions, found %d", nRet))
-	}
+	c18eLocated(c, nr, np)
 	loopDominates := func(fn *ssa.Function, ta, tb string) bool {
 		// tags L<n>: header block n of a dominates header block n of b
 		var na, nb int
